@@ -686,10 +686,11 @@ class QueryDeviceTypeResponse(command.Response):
               255: "multiple"}
 
     def __str__(self):
-        if self.value and self.value.as_integer in self._types:
-            return self._types[self.value.as_integer]
+        v = self.raw_value
+        if v and not v.error and v.as_integer in self._types:
+            return self._types[v.as_integer]
 
-        return "{}".format(self.value)
+        return super().__str__()
 
 
 class QueryDeviceType(_StandardCommand):
